@@ -13,7 +13,9 @@ pub struct LayoutOracle {
 
 impl LayoutOracle {
     pub fn load(lay: Lay) -> Result<Self, String> {
-        let s = std::fs::read_to_string(lay.path()).map_err(|e| format!("{}: {e}", lay.path()))?;
+        // the relative name is resolved against the working directory of the process: the twin's directory
+        let path = if lay == Lay::Relative { Lay::Twin.path() } else { lay.path() };
+        let s = std::fs::read_to_string(&path).map_err(|e| format!("{path}: {e}"))?;
         let v: Value = serde_json::from_str(&s).map_err(|e| format!("{}: {e}", lay.path()))?;
         let obj = v.get("layout").and_then(|l| l.as_object()).ok_or("no layout object")?;
         let mut map = HashMap::new();
